@@ -358,6 +358,25 @@ func RunSem(c SemCase) error {
 	if se.ByteOffset < int64(want.start) || se.ByteOffset >= int64(want.end) {
 		return fmt.Errorf("%s: ByteOffset lies outside the value that cannot be converted (%s): %q spans [%d,%d)", where, want.why, want.ptr, want.start, want.end)
 	}
+	// The same text arriving through a reader in small chunks: the delimiter and
+	// whitespace run before the value can straddle a refill, which must not move
+	// the reported position.
+	for _, chunk := range []int{2, 3, 5, 7, 61, 1 << 20} {
+		var serr error
+		if p := rt.Guard(func() {
+			serr = json.UnmarshalRead(&chunkReader{b: c.Text, n: chunk}, reflect.New(typ).Interface())
+		}); p != nil {
+			return fmt.Errorf("UnmarshalRead(%q in %d-byte chunks) into %v panicked: %v", clip(c.Text), chunk, typ, p)
+		}
+		var sse *json.SemanticError
+		if !errors.As(serr, &sse) {
+			return fmt.Errorf("%s; but UnmarshalRead in %d-byte chunks returns %v", where, chunk, serr)
+		}
+		if string(sse.JSONPointer) != want.ptr || sse.ByteOffset < int64(want.start) || sse.ByteOffset >= int64(want.end) {
+			return fmt.Errorf("UnmarshalRead(%q in %d-byte chunks) into %v: SemanticError{ByteOffset:%d, JSONPointer:%q}: the value that cannot be converted (%s) is %q at [%d,%d) (Unmarshal from []byte reports offset %d)",
+				clip(c.Text), chunk, typ, sse.ByteOffset, sse.JSONPointer, want.why, want.ptr, want.start, want.end, se.ByteOffset)
+		}
+	}
 	rec.Class("sem:checked:" + want.why)
 	if se.ByteOffset == int64(want.start) {
 		rec.Class("sem:offset==value-start")
